@@ -1,15 +1,118 @@
 /-
-  Avt.Spec.C18 — oracle of property C18 (decidable predicates evaluated on implementation states;
-  the same definitions the theorems in Avt/Props/C18.lean are stated with).
+  Avt.Spec.C18 — oracle of property C18, tab stops (decidable definitions evaluated on
+  implementation states; the same definitions the theorems in Avt/Props/C18.lean are stated with).
+
+  Vocabulary of the property: a tab-stop vector is a *sorted set* of columns strictly between 0 and
+  the width.  Everything below is written as a closed formula over `filter`/`range`/`++`, not as a
+  copy of `src/tabs.rs` (which uses binary search, `partition_point`, `skip_while`, `step_by`).
+
+  Covered functions: HTS, TBC (0 / 3), CTC (0 / 2 / 5), HT, CHT n, CBT n; `Terminal::resize`.
 -/
 import Avt.Spec.Base
 
 namespace Avt.Spec.C18
 open Avt Avt.Spec
 
-def checkStep (_ev : StepEv) : List Verdict := []
+/-! ### the reference -/
 
-def checkNew (_cols _rows : Nat) (_lim : Option Nat) (_st : Vt) : List Verdict := []
+/-- default stops of a terminal `cols` wide: every multiple of 8 strictly between 0 and `cols` -/
+def tabsRef (cols : Nat) : List Nat := (List.range cols).filter fun c => 0 < c && c % 8 == 0
+
+/-- every multiple of 8 in `[lo, hi)` — the default stops of newly exposed columns -/
+def defaultsIn (lo hi : Nat) : List Nat := (List.range hi).filter fun c => lo ≤ c && c % 8 == 0
+
+/-- sorted-set insert -/
+def setRef (tabs : List Nat) (col : Nat) : List Nat :=
+  tabs.filter (· < col) ++ [col] ++ tabs.filter (col < ·)
+
+/-- sorted-set remove -/
+def unsetRef (tabs : List Nat) (col : Nat) : List Nat :=
+  tabs.filter (· < col) ++ tabs.filter (col < ·)
+
+/-- HTS / CTC 0 at cursor column `col` of a terminal `cols` wide: no stop at column 0, none at the
+    wrap-pending column -/
+def setAtCursor (tabs : List Nat) (col cols : Nat) : List Nat :=
+  if 0 < col ∧ col < cols then setRef tabs col else tabs
+
+/-- the `n`-th (1-based) stop greater than `pos` -/
+def nthAfter (tabs : List Nat) (pos n : Nat) : Option Nat := (tabs.filter (pos < ·))[n - 1]?
+
+/-- the `n`-th (1-based) stop smaller than `pos`, counting leftwards -/
+def nthBefore (tabs : List Nat) (pos n : Nat) : Option Nat := (tabs.filter (· < pos)).reverse[n - 1]?
+
+/-- resize from `old` to `new` columns: narrowing keeps exactly the stops below the new width;
+    widening keeps every stop and adds every multiple of 8 in `[old, new)` — `old` itself included
+    when it is a multiple of 8 -/
+def resizeRef (tabs : List Nat) (old new : Nat) : List Nat :=
+  if new < old then tabs.filter (· < new) else tabs ++ defaultsIn old new
+
+/-- missing or 0 means 1 -/
+def arg (n : Nat) : Nat := if n = 0 then 1 else n
+
+/-- put the cursor in column `col` of its row (clears a pending wrap); nothing else changes -/
+def toCol (t : Terminal) (col : Nat) : Terminal :=
+  { t with cursor := { t.cursor with col := col }, pendingWrap := false }
+
+/-- HT / CHT: to the `n`-th next stop, to the last column when there is none (never past it) -/
+def tabForward (t : Terminal) (n : Nat) : Terminal :=
+  toCol t (min ((nthAfter t.tabs t.cursor.col n).getD (t.cols - 1)) (t.cols - 1))
+
+/-- CBT: to the `n`-th previous stop, to the first column when there is none -/
+def tabBackward (t : Terminal) (n : Nat) : Terminal :=
+  toCol t (min ((nthBefore t.tabs t.cursor.col n).getD 0) (t.cols - 1))
+
+def withTabs (t : Terminal) (tabs : List Nat) : Terminal := { t with tabs := tabs }
+
+/-- the functions this specification covers -/
+def isTabOp : Function → Bool
+  | .hts | .tbc _ | .ctc _ | .ht | .cht _ | .cbt _ => true
+  | _ => false
+
+/-- functions that edit the stop vector (a terminal that never executed one is "never customised") -/
+def editsTabs : Function → Bool
+  | .hts | .tbc _ | .ctc _ => true
+  | _ => false
+
+/-- complete effect of a tab function: the stop vector or the cursor column changes as the property
+    says, everything else is unchanged -/
+def tabSpec (t : Terminal) : Function → Terminal
+  | .hts => withTabs t (setAtCursor t.tabs t.cursor.col t.cols)
+  | .ctc .set => withTabs t (setAtCursor t.tabs t.cursor.col t.cols)
+  | .ctc .clearCurrentColumn => withTabs t (unsetRef t.tabs t.cursor.col)
+  | .tbc .currentColumn => withTabs t (unsetRef t.tabs t.cursor.col)
+  | .ctc .clearAll => withTabs t []
+  | .tbc .all => withTabs t []
+  | .ht => tabForward t 1
+  | .cht n => tabForward t (arg n)
+  | .cbt n => tabBackward t (arg n)
+  | _ => t
+
+/-- the oracle's partial specification (only from states satisfying the invariant, which is the
+    hypothesis of the theorems) -/
+def specStep (t : Terminal) (f : Function) : Option Terminal :=
+  if TInv t && isTabOp f then some (tabSpec t f) else none
+
+/-! ### oracle -/
+
+def checkStep (ev : StepEv) : List Verdict :=
+  let p := ev.prev.terminal
+  let n := ev.next.terminal
+  let isResize := ev.kind == .resize
+  let neverCustomised := p.tabs == tabsRef p.cols
+  let noEdit := isResize || !(ev.funs.any editsTabs)
+  [ check "tabs-sorted-and-inside-the-screen" true (tabsOK n.tabs n.cols),
+    check "resize-rule" (isResize && ev.cols != p.cols)
+      (!isResize || n.tabs == resizeRef p.tabs p.cols ev.cols),
+    check "never-customised-equals-fresh-of-current-width" (neverCustomised && noEdit && isResize)
+      (!(neverCustomised && noEdit) || n.tabs == tabsRef n.cols) ]
+  ++ (if isResize || ev.funs.isEmpty then [] else
+      match foldSpec specStep ev.funs p with
+      | some expected => [check "tab-op" true (n == afterCall ev.kind expected)]
+      | none => [])
+
+def checkNew (cols _rows : Nat) (_lim : Option Nat) (st : Vt) : List Verdict :=
+  [ check "new-has-default-stops" true (st.terminal.tabs == tabsRef cols),
+    check "new-tabs-ok" true (tabsOK st.terminal.tabs st.terminal.cols) ]
 
 def checkParserStep (_prev : Parser) (_c : Nat) (_next : Parser) (_fn : String) : List Verdict := []
 
